@@ -31,7 +31,7 @@ CLAIMS = {
   tech="Coq induction over schedules; vm_compute on the generated static-storage inventory; pthread harness with wrapped read/write (forced witness schedule, random yields); ThreadSanitizer", ref="DESIGN.md 6 C19"),
  "C05": dict(
   text="Thirteen Coq theorems about faithful models of dl_write_range and multipart_extract, for arbitrary inputs: streaming law (every partition into non-empty callbacks, down to one byte, gives the same final state), placement of well-formed payloads, verification invariant (marked valid implies the extent hashes to the digest), confinement invariant (nothing outside the extents of requested, not-yet-valid chunks changes), mismatch implies zero-filled, marked failed, error reported. Hash and POSIX regex are universally quantified parameters. Tie: differential execution against the real zck_header_cb/zck_write_chunk_cb (plain and ASan): all 1-/2-cut partitions of small responses, every subset of missing chunks, 14 boundaries x 9 header spellings, corruption at every chunk.",
-  note="not a theorem: that the three POSIX patterns hand exactly the part payloads of a well-formed multipart body to the writer (regex semantics; differential runs and the direct oracle only). The streaming law needs non-empty pieces and no zero-length index entries (D14 witness proved as refuted).",
+  note="not a theorem: that the three POSIX patterns hand exactly the part payloads of a well-formed multipart body to the writer (regex semantics; differential runs and the direct oracle only). The streaming law needs non-empty pieces and no zero-length index entries (true of every range index obtainable through zck_get_missing_range; a refuted example documents why).",
   tech="Coq invariants/streaming lemma over the callback state machine + extracted-model/callback differential run with glibc regex as shared oracle", ref="DESIGN.md 6 C05/C17"),
  "C17": dict(
   text="Partial by nature. Seven theorems for every regex oracle under the regexec contract: the models of multipart_get_boundary, multipart_extract and zck_write_chunk_cb never read outside their buffers and always return, and whatever is written satisfies the C05 confinement and verification invariants. Heap lifetime, libc internals and single buffers of 2 GiB or more are covered only by ASan/UBSan runs on malformed header lines and bodies (incl. continuing after zck_clear_error).",
@@ -65,6 +65,26 @@ CLAIMS = {
   text="Theorems for all contents, configurations and op sequences: the write path terminates; the chunk list at close concatenates to exactly the bytes written; segmentation into write calls is irrelevant; the file the writer emits (chunker -> header creation model, both faithful to the C) opens in the reader model with the expected header, passes header/chunk/data checksum verification of the specification and the specification decoder returns exactly the written bytes (zstd through its round-trip contract only); the zck tool's scanner never crashes, hands exactly the input to the library for every split string and every partition into read() results, cuts chunks in front of split strings and reports read errors. Tie/oracle: real writer+reader round trips under random legal configurations (incl. descriptor 0 free) x 12 content classes x segmentations x read-size sequences under ASan; header bytes model vs library; real zck binary through a FIFO with controlled read sizes vs the scanner model; unzck read-back.",
   note="the reader's data-path completeness (a valid file is read to the end under every buffer-size sequence) is covered by the differential run and by C02's soundness theorems, not by a completeness theorem; an index larger than 2^31-1 bytes is written but refused by the reader (recorded finding, needs ~16.5 M chunks)",
   tech="Coq: loop-to-fold chunker lemmas, encode/decode proof of the whole header, scanner invariant; real library and tool round trips incl. FIFO-controlled read partitions", ref="DESIGN.md 6 C01/C16"),
+ "C02": dict(
+  text="Partial. Proved for unit-decoded (zstd) files, every file, hash, decoder and sequence of non-empty buffer sizes: if the file opens, reads continue until one returns 0 and close succeeds, then the specification's header/chunk/data verification holds and the bytes handed out equal the specification decoder's content (all dictionary / flag combinations); a successful specification decode implies every chunk has exactly its declared size (both compression types); unzck model: exit 0 implies output = specification content, failure leaves no output. The uncompressed streaming path is not proved: it rests on the differential run (model vs ASan library on ~17k quick / 280k thorough valid and mutated files: body bit flips, substitutions, insertions, deletions, every truncation length of small files, re-sealed structure edits, six read-size patterns) with the specification decoder as oracle, plus unzck on a sample.",
+  note="hash and zstd decoder are parameters (no hypothesis used); zck_validate_data_checksum enters the unzck theorem through its C09 contract; ZSTD_createDDict failure not modelled",
+  tech="faithful Gallina model of comp_read as one fuelled loop + stream invariant (released ++ buffered = decode of a checksum-verified table prefix); extracted model vs library; independent specification decoder (OpenSSL/libzstd instances) as oracle", ref="DESIGN.md 6 C02/C15/C14"),
+ "C15": dict(
+  text="Proved for every zstd file and every sequence of reads: the bytes returned (after the dictionary's data) are a prefix of the decode of a chunk-table prefix in which every stored chunk hashes to its index digest; after the first failed read every later read fails (sticky error state). Tie and model-independent oracle: single-bit flips of first/middle/last chunk bodies that still decompress x buffer sizes {1, c-1, c, c+1, 32 KiB}, each followed by further reads and close: nothing of the bad chunk is ever handed out.",
+  note="no assumption on hash or decoder; error stickiness modelled through error_state (VALIDATE macros)",
+  tech="Coq stream invariant over the comp_read loop model + bit-flip enumeration against the real reader", ref="DESIGN.md 6 C02/C15/C14"),
+ "C14": dict(
+  text="Partial. Proved for zstd files without a dictionary whose specification verification and decode succeed: every sequence of chunk-data / stored-data requests with buffers of the declared sizes returns the chunk's decoded data / stored bytes (whose hash is the index digest), independent of history. Files with a dictionary chunk and uncompressed files are decided by exhaustive request sequences up to length 3 (thorough 4) over {data, stored} x entries on files of <= 6 entries plus random length-200 sequences, compared with the generator's chunk data and with the model.",
+  note="fuel >= largest stored chunk + 3; side condition: no entry with 0 stored bytes but a non-zero declared size; check_full_hash accumulation across requests only matters for a later zck_close (outside C14)",
+  tech="forward simulation lemmas per loop phase + ready-state invariant; exhaustive/random request sequences against model and library", ref="DESIGN.md 6 C02/C15/C14"),
+ "C04": dict(
+  text="Coq theorems over a chunk-level model of zck_dl.c's update procedure (header fetch with the 89-byte probe, validity scan, copy from the old file, failed->missing reset, request loop with the range_attempt back-off scraped from the source, final truncate and data validation): for every old file (or none, also damaged), every valid new file B, every initial target (any bytes in every extent and the header region, truncated anywhere, over-long) and every server range limit incl. no range support, the procedure terminates within chunks + table length + 1 iterations, never indexes outside the back-off table, and ends with exit code 0, target = B, all chunks valid and data validation passing - or an explicit checksum collision exists; the extents transferred are exactly, each once and in file order, those of the chunks that fail the scan after the header fetch and have no usable equal-digest/equal-size chunk in the old file; refused requests ask for nothing else; header bytes are requested once and zck_read_header starts at the right offset for every lead length. Tie: the real zckdl against a loopback HTTP range server (single range, multipart, per-request range limit -> 200) over generated (A, B, target, limit) scenarios: exit 0 and target == B, transferred ranges == independently computed missing extents, nothing twice; the extracted model must predict the logged request sequence exactly.",
+  note="chunk-level composition: the per-chunk effects of parser, scan, copy, range computation and callbacks are the subjects of C13, C09, C08, C10, C05 and are tied here end to end by the real-tool runs, not by a machine-checked refinement; checksum functions arbitrary (collision clause explicit); well-behaved server, no I/O faults; libcurl/TCP outside the model.",
+  tech="Coq invariant proof with explicit fuel + vm_compute table-shape check on scraped constants; extracted model vs real binary + loopback multi-range HTTP server; independent Python oracle for the missing set", ref="DESIGN.md 6 C04/C11"),
+ "C11": dict(
+  text="Corollaries of the C04 development for every target state, hence every state an interruption can leave (each write step of the procedure, cut after any number of bytes, is proved to keep the target well-formed): a restart with fresh contexts converges to B; whatever it marks valid - after the scan, after the copy, at the end - is a complete extent whose checksum equals the index digest (partial chunks never trusted); no extent that passes the validity test, in particular none that held B's bytes at the interruption, appears in any request (modulo an explicit collision). Tie: real zckdl with wrapped write(2) killed at every write call of small scenarios (0 or half of the bytes written; header writes, copy writes, mid-chunk, responses delivered in 7/13-byte pieces so multipart headers straddle callbacks; sampled for larger scenarios; double interruptions), then restarted on the partial file: exit 0, target == B, transferred ranges == extents of the chunks not intact in the partial file and not in A; the extracted model predicts the restart's request sequence.",
+  note="crash states over-approximated by all well-formed targets; an interruption is process death between or inside write(2) calls (written bytes reach the file; no power-loss semantics); otherwise as C04",
+  tech="C04 theorems instantiated on arbitrary states + soundness-of-valid-flag invariant; --wrap'd write with a kill fault at every k, restart on the partial file, oracle from an independent scan of the partial file", ref="DESIGN.md 6 C04/C11"),
 }
 
 PENDING_REASON = "not built yet in this revision of /verif (work in progress, DESIGN.md section 10): will be claimed once its model, theorems and correspondence run exist"
